@@ -64,26 +64,35 @@ pub fn timeouts() -> Timeouts {
 
 /// One MainDevice + TX/RX pair + the segment it talks to.
 macro_rules! storages {
-    ($($name:ident => $d:expr),*) => {
-        enum StoPtr { $($name(*mut PduStorage<FRAMES, $d>)),* }
+    ($($name:ident => $d:expr),* ; $($name2:ident => ($n2:expr, $d2:expr)),*) => {
+        enum StoPtr { $($name(*mut PduStorage<FRAMES, $d>),)* $($name2(*mut PduStorage<$n2, $d2>)),* }
         impl StoPtr {
             fn new(data: usize) -> (Self, PduTx<'static>, PduRx<'static>, ethercrab::PduLoop<'static>) {
-                $( if data == $d {
+                Self::new_n(FRAMES, data)
+            }
+            fn new_n(frames: usize, data: usize) -> (Self, PduTx<'static>, PduRx<'static>, ethercrab::PduLoop<'static>) {
+                $( if data == $d && frames == FRAMES {
                     let p: *mut PduStorage<FRAMES, $d> = Box::into_raw(Box::new(PduStorage::new()));
                     let (a, b, c) = unsafe { (&*p).try_split().unwrap() };
                     return (StoPtr::$name(p), a, b, c);
                 } )*
-                panic!("no storage instantiated for frame size {}", data);
+                $( if data == $d2 && frames == $n2 {
+                    let p: *mut PduStorage<$n2, $d2> = Box::into_raw(Box::new(PduStorage::new()));
+                    let (a, b, c) = unsafe { (&*p).try_split().unwrap() };
+                    return (StoPtr::$name2(p), a, b, c);
+                } )*
+                panic!("no storage instantiated for {} frames of size {}", frames, data);
             }
             unsafe fn free(&self) {
-                unsafe { match self { $(StoPtr::$name(p) => drop(Box::from_raw(*p))),* } }
+                unsafe { match self { $(StoPtr::$name(p) => drop(Box::from_raw(*p)),)* $(StoPtr::$name2(p) => drop(Box::from_raw(*p))),* } }
             }
         }
         pub const NET_SIZES: &[usize] = &[$($d),*];
     };
 }
 
-storages!(S44 => 44, S50 => 50, S52 => 52, S60 => 60, S64 => 64, S80 => 80, S100 => 100, S128 => 128, S256 => 256, S1100 => 1100, S1514 => 1514);
+storages!(S44 => 44, S50 => 50, S52 => 52, S60 => 60, S64 => 64, S80 => 80, S100 => 100, S128 => 128, S256 => 256, S1100 => 1100, S1514 => 1514;
+    N1 => (1, 1100), N2 => (2, 1100), N4 => (4, 1100), N16 => (16, 1100));
 
 pub struct Net {
     sto: StoPtr,
@@ -120,8 +129,12 @@ impl Net {
     }
 
     pub fn with_size(seg: Segment, timeouts: Timeouts, retry: RetryBehaviour, data: usize) -> Self {
+        Self::with_frames(seg, timeouts, retry, FRAMES, data)
+    }
+
+    pub fn with_frames(seg: Segment, timeouts: Timeouts, retry: RetryBehaviour, frames: usize, data: usize) -> Self {
         clock::reset();
-        let (sto, tx, rx, pl) = StoPtr::new(data);
+        let (sto, tx, rx, pl) = StoPtr::new_n(frames, data);
         let md = Box::into_raw(Box::new(MainDevice::new(
             pl,
             timeouts,
